@@ -1302,9 +1302,14 @@ class Interp:
             return ('T', tyid, None)
         if k == 'tuple' and not ty['elems']:
             return ('A', ())
+        if k == 'tuple' and ty.get('offs') is not None and len(ty['offs']) == len(ty['elems']) and depth < 6:
+            # layout exported by the driver (field offsets of the monomorphic tuple)
+            return ('A', tuple(self._decode(a, data, off + o_, self.types.get(et), et, None, depth + 1) for o_, et in zip(ty['offs'], ty['elems'])))
         return ('T', tyid, None)
 
     def type_size(self, ty):
+        if ty['k'] == 'tuple' and ty.get('size') is not None:
+            return ty['size']
         k = ty['k']
         if k in ('uint', 'int', 'float'):
             return ty['bits'] // 8
